@@ -41,6 +41,49 @@ def CleanupCalls(calls0, calls1):
     return len([e for e in calls1[len(calls0):] if nth(e, 0) == 'cleanup'])
 
 
+def InitOnlyFirst(new, entered_fresh, boundary):
+    """(bounded only) a state function sees init=True exactly when it is the first call after a transition (a state returning
+    a callable - also itself - is a transition; Retry is not).  Where the trace cannot tell whether a new run began (a pending
+    start / stop was taken, a cleanup ran) the next call must see init=True only if it is a different function."""
+    fresh = entered_fresh
+    unsure = boundary
+    prev = None
+    for e in new:
+        kind = e[0]
+        if kind == 'cleanup':
+            unsure = True
+            continue
+        if kind != 'state':
+            continue
+        if unsure:
+            if prev is not None and e[1] is not prev and not e[2]:
+                return False
+        elif e[2] != fresh:
+            return False
+        unsure = False
+        prev = e[1]
+        fresh = e[3] != 'retry'                    # anything but Retry leaves the state (transition, finish, error)
+    return True
+
+
+def CleanupAtMostOncePerRun(trace):
+    """(bounded only) the cleanup function is never called more often than runs were started with it"""
+    starts = len([e for e in trace if e[0] == 'started'])
+    return len([e for e in trace if e[0] == 'cleanup']) <= starts
+
+
+def CleaningNow(sm):
+    return sm.cleanup_reason is not None
+
+
+def StartedAs(sm, new, wanted):
+    """(bounded only) the most recently requested state was entered (its first call is in this cycle, or the machine has
+    already moved on from it), with exactly the requested attributes"""
+    state, attrs = wanted
+    entered = any(e[0] == 'state' and e[1] is state and e[2] for e in new)
+    return entered and all(getattr(sm, k, None) == v for k, v in attrs.items())
+
+
 CONTRACTS = [
     dict(key='statefn', file=None, func=None, packed_args=True, serves=[], trusted=True, requires=[],
          ghost_modifies=['sm_calls'],
@@ -87,6 +130,15 @@ CONTRACTS = [
                    '_last_time'],
          ghost_modifies=['sm_calls'],
          ensures={'inv': 'inv(self)'},
+         # bounded stand-in only: histories of start / stop / cycle over state-function programs (trace clauses)
+         bounded_ensures={'bounded_calls': 'len(trace) - len(old(trace)) <= 2 * (self.maxloops + 2)',
+                          'init_flag': 'InitOnlyFirst(trace[len(old(trace)):], entered_fresh, pending is not None)',
+                          'cleanup_once': 'CleanupAtMostOncePerRun(trace)',
+                          'cleanup_not_interrupted': 'implies(cleaning_before and statefunc_before is not None,'
+                                                     ' len(trace) > len(old(trace)) and trace[len(old(trace))][0] == "state"'
+                                                     ' and trace[len(old(trace))][1] is statefunc_before)',
+                          'stop_wins': 'implies(pending == "stop" and not cleaning_before, not self.is_active or CleaningNow(self))',
+                          'start_wins': 'implies(pending == "start" and not cleaning_before, CleaningNow(self) or StartedAs(self, trace[len(old(trace)):], wanted))'},
          raises={'cls': 'issubclass(exc, AttributeError)'}),
 ]
 LOOPS = {
